@@ -115,6 +115,12 @@ theorem wf_names {s : Srv} (h : SrvWF s) (c : Str) : SrvWF (s.step (.names c)).1
 theorem wf_who {s : Srv} (h : SrvWF s) (c : Str) : SrvWF (s.step (.who c)).1 := by
   simp only [Srv.step]; split <;> exact h
 
+theorem wf_modeis {s : Srv} (h : SrvWF s) (c : Str) : SrvWF (s.step (.modeis c)).1 := by
+  simp only [Srv.step]; split <;> exact h
+
+theorem wf_banlist {s : Srv} (h : SrvWF s) (c : Str) : SrvWF (s.step (.banlist c)).1 := by
+  simp only [Srv.step]; split <;> exact h
+
 /-! #### chghost -/
 
 theorem wf_chghost {s : Srv} (h : SrvWF s) (n i ho : Str) : SrvWF (s.step (.chghost n i ho)).1 := by
@@ -643,6 +649,8 @@ theorem wf_step {s : Srv} (h : SrvWF s) (a : Act) (ha : a.ok) : SrvWF (s.step a)
   | chghost n i ho => exact wf_chghost h n i ho
   | names c => exact wf_names h c
   | who c => exact wf_who h c
+  | modeis c => exact wf_modeis h c
+  | banlist c => exact wf_banlist h c
   | reconnect => exact wf_reconnect h
 
 theorem wf_init (cfg : Cfg) (hv : cfg.valid = true) (hmp : cfg.multiPrefix = true) : SrvWF (Srv.init cfg) := by
